@@ -39,12 +39,12 @@ impl RemoteInitiated {
 //@| requires ri_inv(self.abs()),
 //@| ensures ret.0 as int == self.abs().advertised - self.abs().local_limit,
 
-//@ splice-fn quic/s2n-quic-transport/src/stream/controller/remote_initiated.rs "RemoteInitiated" on_open_stream vis=strip "subst=self.opened_streams += 1;=>self.opened_streams.add_assign_usize(1);"
+//@ splice-fn quic/s2n-quic-transport/src/stream/controller/remote_initiated.rs "RemoteInitiated" on_open_stream vis=strip desugar=assign_ops
 //@| requires ri_inv(old(self).abs()), old(self).abs().opened < old(self).abs().advertised,
 //@|     old(self).abs().opened - old(self).abs().closed < old(self).abs().local_limit,
 //@| ensures ri_open_counts(old(self).abs(), final(self).abs()), ri_inv(final(self).abs()),
 
-//@ splice-fn quic/s2n-quic-transport/src/stream/controller/remote_initiated.rs "RemoteInitiated" on_close_stream vis=strip "subst=self.closed_streams += 1;=>self.closed_streams.add_assign_usize(1);"
+//@ splice-fn quic/s2n-quic-transport/src/stream/controller/remote_initiated.rs "RemoteInitiated" on_close_stream vis=strip desugar=assign_ops
 //@| requires ri_inv(old(self).abs()), old(self).abs().closed < old(self).abs().opened,
 //@|     old(self).abs().opened - old(self).abs().closed <= old(self).abs().local_limit,
 //@| ensures ri_close_counts(old(self).abs(), final(self).abs()),
